@@ -708,6 +708,13 @@ func BoolIs(pred func(*ssa.Call) bool, want bool) Guard {
 				valWhenTrue := k == eq
 				return true, valWhenTrue == want
 			}
+			// an equality answered as a three-way comparison: bytes.Compare(a, b) == 0 / != 0 stands for
+			// bytes.Equal(a, b) (the predicate is asked about the Compare call; see rules.bytesEqual)
+			if k, isk := ConstInt(b.Y); isk && k == 0 {
+				if call, _ := CallOf(b.X); call != nil && IsPkgFunc(call, "bytes", "Compare") && pred(call) {
+					return true, (b.Op == token.EQL) == want
+				}
+			}
 		}
 		call, _ := CallOf(v)
 		if call == nil || !pred(call) {
